@@ -1,5 +1,5 @@
 """C04 Schedule and configuration independence (determinism)."""
-from vk import common, sysrun
+from vk import common, sysrun, remote
 from vk.kernels import c04 as K
 
 
@@ -9,6 +9,7 @@ def run(rep, tier, seed, args):
                 'configuration and one variant (transport modes with solver-chosen delivery order / cache off / lazy off / debug on / reversed start order / '
                 'hash salt); the per-simulator (time, inputs) sequences must be equal (times as terms); non-trivial = at least one pair of steps was compared')
     rep.bounds = {'simulators': '<= 3', 'steps': 'K=2-3', 'until': 3, 'variants': 'one toggle at a time (thorough: also combined and D=1)',
-                  'outside': 'remote byte transport (its scheduling effect is the asynchronous transport mode); non-deterministic simulators'}
-    rep.assumptions = list(sysrun.STUBS) + ['deterministic simulator = behaviour is a function of (simulator, step ordinal), shared by both runs; the first divergence of the observed sequences is reported']
+                  'transport': 'in-process vs the in-memory remote transport (vk.remote: real start_connect, RemoteProxy, Channel, stream classes and simulator-side loop; all message orders) for all / the first simulator',
+                  'outside': 'sockets, subprocesses and the JSON text of a message (replaced by a table lookup with the structural effect of a JSON round trip); non-deterministic simulators'}
+    rep.assumptions = list(sysrun.STUBS) + list(remote.STUBS) + ['deterministic simulator = behaviour is a function of (simulator, step ordinal), shared by both runs; the first divergence of the observed sequences is reported']
     rep.add_jobs(common.run_jobs(jobs))
